@@ -53,7 +53,7 @@ def _worker(args):
             rec = run(facet, n, hseed, budget, shrink=True)
         res.update(evaluations=rec.evaluations, nontrivial=sorted(rec.nontrivial), tags=rec.tags,
                    samples=rec.samples, truncated=rec.truncated, extra=rec.extra,
-                   wall=time.time() - t0, hseed=hseed)
+                   wall=time.time() - t0, hseed=hseed, lines=rec.tracer.summary())
         if rec.failure is not None:
             case, msg, bucket = rec.failure
             path = os.path.join(OUT, "replays", f"{prop}-{facet_name}-s{base_seed}-{shard}.json")
@@ -202,7 +202,9 @@ def main(argv=None):
             harness_errors.append((r["facet"], r["harness_error"]))
             continue
         pf = per_facet.setdefault(r["facet"], {"evaluations": 0, "nontrivial": set(), "tags": {}, "samples": [],
-                                                "truncated": False, "extra": {}, "wall": 0.0})
+                                                "truncated": False, "extra": {}, "wall": 0.0, "lines": {}})
+        for fn, lns in r.get("lines", {}).items():
+            pf["lines"].setdefault(fn, set()).update(lns)
         pf["evaluations"] += r["evaluations"]
         pf["nontrivial"].update(r["nontrivial"])
         for k, v in r["tags"].items():
@@ -250,6 +252,8 @@ def main(argv=None):
                     "truncated": p["truncated"],
                     "exhaustive": facets[name].kind == "enum",
                     "wall_s": round(p["wall"], 2),
+                    "cut_lines_executed_in_first_cases": {fn: H.compress_lines(l) for fn, l in sorted(p["lines"].items())
+                                                          if not fn.endswith(("logging.py", "__init__.py"))},
                 }
                 for name, p in per_facet.items()
             },
